@@ -101,6 +101,7 @@ fn real_main() {
                 "lazy" => solve::gen_case(&mut crng, gen::Kind::Lazy),
                 "hints" => solve::gen_case(&mut crng, gen::Kind::Hints),
                 "cancel" => solve::gen_cancel_case(&mut crng),
+                "cancel-async" => solve::gen_cancel_async_case(&mut crng),
                 "reuse" => solve::gen_reuse_case(&mut crng, false),
                 "reuse-async" => solve::gen_reuse_case(&mut crng, true),
                 "amo-solve" => solve::gen_amo_solve_case(&mut crng, i),
@@ -125,7 +126,7 @@ fn real_main() {
             "pool" => guarded(move || pool::run_case(&l2)),
             "containers" => vec!["generated-only".to_string()],
             "snapshot" => guarded(move || snapshot::run_case(&l2)),
-            "solve" | "soft" | "conflictfree" | "lazy" | "hints" | "cancel" | "reuse" | "reuse-async" | "async" | "async-cf" | "amo-solve" => guarded(move || solve::run_case(&l2)),
+            "solve" | "soft" | "conflictfree" | "lazy" | "hints" | "cancel" | "cancel-async" | "reuse" | "reuse-async" | "async" | "async-cf" | "amo-solve" => guarded(move || solve::run_case(&l2)),
             f => panic!("unknown family {f}"),
         };
         // C06 (in-process part): a second run with fresh solver instances must give identical observations
